@@ -40,6 +40,12 @@ def c17(res, tier, seed, replay):
                 runs.append({"name": f"fan-{servers}s-m{maxshard}-{s}", "timeout": 600,
                              "args": ["-servers", servers, "-maxshard", maxshard, "-seed", seed * 100 + s * 10 + servers, "-hist", 2 if tier == "quick" else 4,
                                       "-batches", 12]})
+        # update requests of 40-100 points in request order against 5 shards of one node (the fan-out hands ONE slice
+        # to a goroutine per shard)
+        for servers in (1, 2):
+            runs.append({"name": f"fan-wide-{servers}s-{s}", "timeout": 900,
+                         "args": ["-wide", "-servers", servers, "-maxshard", 20, "-seed", seed * 100 + 70 + s * 10 + servers,
+                                  "-hist", 2 if tier == "quick" else 6, "-batches", 80]})
         for servers in (2, 3):
             runs.append({"name": f"fan-kill-{servers}s-{s}", "timeout": 600,
                          "args": ["-kill", "-servers", servers, "-maxshard", 3, "-seed", seed * 100 + 50 + s * 10 + servers,
